@@ -461,6 +461,8 @@ def run(ctx):
                 "seed": int(rng.integers(0, 2 ** 31))}
         run_grid(ctx, codes, case, rng=np.random.default_rng(case["seed"]),
                  max_outlets=6)
+        if it % 3 == 0:
+            run_river_dtypes(ctx, rng)
         if it % 4 != 3 and min(nr, nc) >= 2:
             c3 = {"kind": "apiseq", "codes": codes.tolist(),
                   "seed": int(rng.integers(0, 2 ** 31))}
@@ -473,6 +475,14 @@ def run(ctx):
             cat, fd = make_catch(codes)
             sizes = [len(model.area(o)) for o in range(model.n)]
             o = int(np.argmax(sizes))
+            # the buffer size as a numpy integer, also at the top of a narrow type
+            for nv_ in (np.uint8(255), np.int8(127), np.uint16(65535), np.int16(32767),
+                        np.int32(2 ** 20), np.array(300)):
+                if int(nv_) >= sizes[o] + 3:
+                    ctx.tag("buffer-size-as-numpy-integer")
+                    check_area(ctx, cat, model, o, [],
+                               dict(case, outlet=o, inlets=[], nval=repr(nv_)),
+                               nval=nv_, cyc=False)
             for nval in (1, 2, sizes[o], sizes[o] + 1, sizes[o] + 2):
                 ctx.tag("tight-buffer")
                 check_area(ctx, cat, model, o, [], dict(case, outlet=o, inlets=[],
@@ -604,6 +614,33 @@ def run_large(ctx, nr, nc, variant):
                        "last_dist": float(dist[-1]) if len(dist) else None,
                        "expected_last": float(expd[-1])})
     ctx.nontrivial("large", nr, nc, variant)
+
+
+def run_river_dtypes(ctx, rng):
+    """flow grids stored as uint8 / int32 / float64 (rasters come in those types), traced,
+    edited in place by the caller (another direction written into some cells, the whole
+    array refilled), traced again: each trace follows the codes the grid holds then"""
+    g = mods()
+    nr, nc = int(rng.integers(3, 9)), int(rng.integers(3, 9))
+    c1 = gen_forest(rng, nr, nc, 0)
+    c2 = gen_forest(rng, nr, nc, 1)
+    for dt in (np.uint8, np.int32, np.float64, np.int64):
+        fd = g.Grid("fd", nc, nr, dtype=dt)
+        fd.data = c1.astype(dt)
+        for step, codes in enumerate((c1, c2, c1)):
+            if step == 1:
+                fd.data[...] = c2.astype(dt)              # refilled in place
+            elif step == 2:
+                for i in range(nr * nc):                   # cell by cell
+                    fd[i] = dt(c1.flat[i])
+            model = FlowGraph(codes.tolist())
+            cyc = model.has_cycle()
+            for s in rng.choice(nr * nc, size=3, replace=False):
+                ctx.evaluated()
+                ctx.tag("river:grid-of-other-type-edited-in-place")
+                check_river(ctx, fd, model, int(s),
+                            {"kind": "riverdtype", "dtype": np.dtype(dt).name, "step": step,
+                             "codes": codes.tolist(), "river_start": int(s)}, cyc)
 
 
 def run_many_inlets(ctx):
